@@ -60,4 +60,18 @@ Section Roundtrip.
     rest true DNil = Ok (DStream []) /\
     catV [] = CEmpty /\ catV [None] = COk None.
   Proof. repeat split; reflexivity. Qed.
+
+  (* F-C05h: before 57995e9 the nil value of an interface type sitting in a CHANNEL (the answer of a node folded into its
+     successor's channel when the checkpoint is assembled mid-step), written by a run without streams as the marker,
+     came back to a run without streams as the marker itself - not a live value of such a run: the successor was handed
+     a compose.nilChunk - whereas the same entry as a pending input came back as nil *)
+  Theorem paradigm_roundtrip_channel_v0_refuted_l :
+    live V false DNil /\ (conv false DNil = Ok DNilChunk) /\
+    (m_restore_channel_entry_v0 V false DNilChunk = Ok DNilChunk) /\ (~ live V false DNilChunk) /\
+    (rest false DNilChunk = Ok DNil).
+  Proof.
+    repeat split; try reflexivity.
+    - left; reflexivity.
+    - intros [H | [x H]]; discriminate H.
+  Qed.
 End Roundtrip.
